@@ -47,6 +47,14 @@ SpinnerEv(ev) ==
   /\ \E r \in EndTimeGenerate([prev |-> prev, finish |-> ev.finish, short |-> ev.short]) : r.err = "" /\ r.p = Abs(ev.out)
   /\ UNCHANGED <<prev, stair>>
 
+(* the object list the mania difficulty calculation works on (after HoldOff / Invert / Random): a well-formed mania map *)
+ObjectsEv(ev) ==
+  /\ ev.finite
+  /\ AllInRange(ev.cols)
+  /\ \A i \in 1..(Len(ev.starts) - 1) : ev.starts[i] <= ev.starts[i + 1]          \* time order
+  /\ \A i \in 1..Len(ev.starts) : ev.ends[i] >= ev.starts[i]                      \* no negative duration
+  /\ UNCHANGED <<prev, stair>>
+
 TraceInit == l = 1 /\ prev = Empty /\ stair = "STAIR"
 TraceNext ==
   /\ l <= Len(Rec) /\ l' = l + 1
@@ -54,6 +62,7 @@ TraceNext ==
        CASE ev.g = "reset" -> Reset(ev)
          [] ev.g = "circle" -> CircleEv(ev)
          [] ev.g = "slider" -> SliderEv(ev)
+         [] ev.g = "objects" -> ObjectsEv(ev)
          [] OTHER -> SpinnerEv(ev)
 TraceSpec == TraceInit /\ [][TraceNext]_tvars
 TraceAccepted ==
